@@ -527,7 +527,7 @@ def run_rewrap(spec):
 
 # set to True once wrapper.__init__ no longer edits the stack it is given (see ASSUMPTIONS / KNOWN): the generator then also
 # wraps again with the class of the third layer
-REWRAP_DEEP = False
+REWRAP_DEEP = True
 
 KNOWN = {
     # signature of the known defect: the re-wrapped class sits under >= 2 other layers
